@@ -101,6 +101,7 @@ pub fn run(o: &Opts) -> Report {
     let root = VfsPath::new(MemoryFS::new());
     let other_root = VfsPath::new(MemoryFS::new());
     let aroot = AsyncVfsPath::new(AsyncMemoryFS::new());
+    let other_aroot = AsyncVfsPath::new(AsyncMemoryFS::new());
     let bases = ["", "/a", "/a/b", "/a.b/é", "/a/b/..c"];
     let max_len = if o.thorough() { 8 } else { 6 };
     let mut cases: Vec<Case> = vec![];
@@ -237,8 +238,40 @@ pub fn run(o: &Opts) -> Report {
         let par = guarded(|| p.parent().as_str().to_string());
         let fname = guarded(|| p.filename());
         let ext = guarded(|| p.extension());
-        let ap = aroot.join(r).unwrap();
+        let ap = match guarded(|| aroot.join(r)) {
+            Ok(Ok(ap)) => ap,
+            _ => {
+                rep.fail(Fail { oracle: "prop".into(), signature: "async-join-result-not-canonical".into(), what: format!("AsyncVfsPath: joining the join result {:?} onto the root is rejected or panics", r), script: vec![format!("join {} {}", enc_str(""), enc_str(r))], impl_out: r.clone(), model_out: String::new() });
+                continue;
+            }
+        };
         let same_async = guarded(|| (ap.parent().as_str().to_string(), ap.filename(), ap.extension()));
+        // equality, root() and is_root() of the async path type (its own PartialEq impl): same instance
+        // and same string, never across instances, also for derived roots
+        {
+            let other_aroot = other_aroot.clone();
+            let ok = guarded(|| {
+                let twin = aroot.join(r).unwrap();
+                let foreign = other_aroot.join(r).unwrap();
+                let mut good = ap == twin && ap != foreign && ap.root() == aroot && ap.root() != other_aroot && ap.is_root() == r.is_empty() && ap.root().is_root();
+                let (mut a, mut b) = (ap.clone(), foreign.clone());
+                for _ in 0..64 {
+                    if a == b || a.as_str() != b.as_str() {
+                        good = false;
+                    }
+                    if a.is_root() {
+                        good = good && a == aroot && b == other_aroot && a != other_aroot;
+                        break;
+                    }
+                    a = a.parent();
+                    b = b.parent();
+                }
+                good
+            });
+            if ok != Ok(true) {
+                rep.fail(Fail { oracle: "prop".into(), signature: "async-equality-wrong".into(), what: format!("AsyncVfsPath {:?}: == / root() / is_root() are not (same instance, same string){}", r, if ok.is_err() { " (panicked)" } else { "" }), script: vec![format!("parent {}", enc_str(r))], impl_out: format!("{:?}", ok), model_out: String::new() });
+            }
+        }
         lines.push(format!("parent {}", enc_str(r)));
         imps.push(par.as_ref().map(|s| enc_str(s)).unwrap_or("panic".into()));
         lines.push(format!("filename {}", enc_str(r)));
